@@ -36,8 +36,19 @@ def equations(year):
         E("1040", "34", "sub", ["24", "33"], cite="34. If line 33 is more than line 24, subtract line 24 from line 33"),
         E("1040", "2b", "carry", src="1040_sb.4", cite="Schedule B line 4: enter the result here and on Form 1040 line 2b"),
         E("1040", "3b", "carry", src="1040_sb.6", cite="Schedule B line 6: enter the total here and on Form 1040 line 3b"),
-        E("1040", "25a", "addinst", inst="w-2", box="box_2", cite="25a. Federal income tax withheld from Form(s) W-2 (box 2 of every W-2)"),
-        E("1040", "1a", "addinst", inst="w-2", box="box_1", cite="1a. Total amount from Form(s) W-2, box 1"),
+        E("1040", "25a", "addinst", terms=[("w-2", "box_2")], cite="25a. Federal income tax withheld from Form(s) W-2 (box 2 of every W-2)"),
+        E("1040", "1a" if year != 2021 else "1", "addinst", terms=[("w-2", "box_1")], cite="1a. Total amount from Form(s) W-2, box 1", cond_nonzero=True),
+        E("1040", "2a", "addinst", terms=[("1099-int", "box_8")], cite="2a. Tax-exempt interest (Form 1099-INT box 8)"),
+        E("1040", "3a", "addinst", terms=[("1099-div", "box_1b")], cite="3a. Qualified dividends (Form 1099-DIV box 1b)"),
+        E("1040", "7", "addinst", terms=[("1099-div", "box_2a")], cite="7. Capital gain distributions when Schedule D is not required (Form 1099-DIV box 2a)"),
+        E("1040", "25b", "addinst", terms=[("1099-r", "box_4"), ("1099-div", "box_4"), ("1099-int", "box_4")], cite="25b. Federal income tax withheld from Form(s) 1099 (box 4)"),
+        E("1040", "35a", "sub", ["36", "34"], cite="35a. Amount of line 34 you want refunded to you (line 34 minus line 36)"),
+        E("8995", "6", "addinst", terms=[("1099-div", "box_5")], cite="Form 8995 line 6: qualified REIT dividends (section 199A dividends, Form 1099-DIV box 5)"),
+        E("8995", "11", "subx", ["1040.12", "1040.11"] if year != 2021 else ["1040.12c", "1040.11"], cite="Form 8995 line 11: taxable income before the qualified business income deduction (Form 1040 line 11 minus line 12)"),
+        E("8995", "12", "add", ["1040.3a", "1040.7"], cite="Form 8995 line 12: net capital gain: qualified dividends plus capital gain (Form 1040 lines 3a and 7)"),
+        E("8959", "1", "addinst", terms=[("w-2", "box_5")], cite="Form 8959 line 1: Medicare wages and tips from Form W-2, box 5 (total of all W-2s)"),
+        E("8959", "19", "addinst", terms=[("w-2", "box_6")], cite="Form 8959 line 19: Medicare tax withheld from Form W-2, box 6 (total of all W-2s)"),
+        E("1040_sa", "8a", "addinst", terms=[("1098", "box_1"), ("1098", "box_6")], cite="Schedule A line 8a: home mortgage interest and points reported on Form 1098"),
         # Schedule A
         E("1040_sa", "5e", "minconst", ["5d"], consts=SALT, cite="5e. Enter the smaller of line 5d or $10,000 ($5,000 if married filing separately)"),
         E("1040_sa", "17", "add", ["4", "7", "10", "14", "15", "16"], cite="17. Add the amounts in the far right column for lines 4 through 16"),
@@ -102,5 +113,10 @@ def equations(year):
         E("nc_d-400_sa", "7d", "max0sub", ["7c", "7a"], cite="Schedule A 7d. Subtract Line 7c from Line 7a; if 7c is more than 7a enter zero"),
         E("nc_d-400_sa", "10", "add", ["5", "6", "7d", "8", "9"], cite="Schedule A 10. Add Lines 5, 6, 7d, 8, and 9"),
         E("nc_d-400_child_deduction_wkst", "2", "carry", src="nc_d-400.6", cite="Child deduction worksheet 2. Enter the amount from Form D-400, Line 6"),
+        E("nc_d-400_child_deduction_wkst", "5", "mulcnt", ["3", "4"], cite="Child deduction worksheet 5. Multiply the number of children (line 3) by the deduction per child (line 4)"),
+        E("nc_d-400", "10a", "carry", src="nc_d-400_child_deduction_wkst.3", cite="D-400 line 10a: number of qualifying children (worksheet line 3)"),
+        E("nc_d-400_sa", "deduction", "max", ["nc_standard_deduction", "10"], cite="D-400 line 11: the N.C. standard deduction or the N.C. itemized deductions, whichever is larger"),
+        E("nc_d-400_sa", "7b", "carry", src="nc_d-400.6", cite="Schedule A 7b. Enter amount from Form D-400, Line 6"),
+        E("nc_d-400_ss", NC_SS_TOTAL_ADDITIONS[year], "add", [str(k) for k in range(1, int(NC_SS_TOTAL_ADDITIONS[year]))], cite="Schedule S: Total Additions - Add Lines 1 through %d" % (int(NC_SS_TOTAL_ADDITIONS[year]) - 1)),
     ]
     return out
